@@ -392,6 +392,11 @@ impl TapState {
             return;
         }
         self.ended = true;
+        for (_, lt) in &self.group {
+            if let Some(lt) = lt {
+                lt.borrow_mut().stage_ended = true;
+            }
+        }
         if let Some(raw) = &self.raw {
             let w = env.borrow();
             if !w.dropped {
@@ -523,6 +528,8 @@ pub struct LimTapState {
     pub last: PollRes,
     pub epoch: u64,
     pub is_tail: bool,
+    /// the stage's own output stream has ended: limits announced from now on cannot reach its view
+    pub stage_ended: bool,
 }
 
 pub struct LimitTap {
